@@ -56,6 +56,8 @@ def names(scheme, q):
         return ["q%d" % i for i in range(q)]
     if scheme == "int":
         return list(range(q))
+    if scheme == "mixedval":   # values of different types with one spelling
+        return [0, "0", 1][:q]
     if scheme == "pre":        # one name is another name plus a digit (the renaming of shared names appends digits)
         return ["q", "q0", "q00"][:q]
     raise ValueError(scheme)
